@@ -351,7 +351,7 @@ Lemma pv_is_reflect : forall t d e, pv_is t (reflect_ret d e) = gerr_is t e.
 Proof.
   intros t d [ls b]. unfold reflect_ret.
   destruct ls as [|l ls].
-  - destruct b; simpl; auto; destruct (value_unc v); auto.
+  - destruct b; simpl; auto; match goal with |- context [if ?c then _ else _] => destruct c end; auto.
   - destruct (uncatchable (GErr (l :: ls) b)); reflexivity.
 Qed.
 
@@ -472,19 +472,18 @@ Qed.
 
 Lemma hard_unc_uncatchable : forall e, hard_unc e = true -> uncatchable e = true.
 Proof.
-  intros [ls b] H. unfold uncatchable; simpl in *. apply andb_true_iff in H. destruct H as [H1 H2].
-  rewrite H1. destruct b; simpl in *; auto; discriminate.
+  intros [ls b] H. unfold uncatchable, hard_unc in *. cbn [gerr_base gerr_has ebase_has] in *. rewrite H. reflexivity.
 Qed.
 
 Lemma hard_unc_not_exc : forall e, hard_unc e = true -> pv_of_err e = PVErr e.
 Proof.
-  intros [ls b] H. destruct ls; auto. destruct b; auto. simpl in H. discriminate.
+  intros [ls b] H. destruct ls; auto. destruct b; auto. unfold hard_unc in H; simpl in H. discriminate.
 Qed.
 
 Lemma hard_unc_reflect : forall d e, hard_unc e = true -> reflect_ret d e = PVErr e.
 Proof.
   intros d e H. unfold reflect_ret. rewrite (hard_unc_uncatchable e H).
-  destruct e as [ls b]. destruct ls; auto. destruct b; auto. simpl in H; discriminate.
+  destruct e as [ls b]. destruct ls; auto. destruct b; auto. unfold hard_unc in H; simpl in H; discriminate.
 Qed.
 
 Lemma hard_unc_wrap : forall e, hard_unc (wrap e) = hard_unc e.
@@ -492,6 +491,18 @@ Proof. intros [ls b]; reflexivity. Qed.
 
 Lemma gerr_base_wrap : forall e, gerr_base (wrap e) = gerr_base e.
 Proof. intros [ls b]; reflexivity. Qed.
+
+Lemma hard_unc_join : forall s e, hard_unc (join s e) = hard_unc e.
+Proof. intros s [ls b]; reflexivity. Qed.
+
+Lemma gerr_base_join : forall s e, gerr_base (join s e) = gerr_base e.
+Proof. intros s [ls b]; reflexivity. Qed.
+
+Lemma join_stays_uncatchable : forall d s e,
+  hard_unc e = true -> reflect_ret d (join s e) = PVErr (join s e) /\ hard_unc (join s e) = true.
+Proof.
+  intros d s e H. rewrite hard_unc_join. split; auto. apply hard_unc_reflect. rewrite hard_unc_join; auto.
+Qed.
 
 Lemma hard_cb : forall cb d e, hard_unc e = true ->
   cb_convert d cb (SPanic (PVErr e)) = GErrRes e \/ cb_convert d cb (SPanic (PVErr e)) = GPanic (PVErr e).
@@ -507,7 +518,7 @@ Definition unc_sig (b : ebase) (s : signal) : Prop :=
 
 Definition nonjs_ev (e : event) : Prop := match e with EvNative _ _ => True | _ => False end.
 
-Lemma step_unc : forall b d f s, no_join f = true -> unc_sig b s ->
+Lemma step_unc : forall b d f s, (fun _ : frame => true) f = true -> unc_sig b s ->
   unc_sig b (fst (step d f s)) /\ Forall nonjs_ev (snd (step d f s)).
 Proof.
   intros b d f s Hn [e [-> [He Hb]]].
@@ -524,6 +535,8 @@ Proof.
       * exists e. destruct en; rewrite ?hard_unc_reflect, ?P; auto.
       * exists (wrap e). rewrite hard_unc_wrap, gerr_base_wrap.
         destruct en; simpl; rewrite ?hard_unc_reflect; rewrite ?hard_unc_wrap; auto.
+      * exists (join s e). rewrite hard_unc_join, gerr_base_join.
+        destruct en; simpl; rewrite ?hard_unc_reflect; rewrite ?hard_unc_join; auto.
     + split; [exists e; auto | constructor].
 Qed.
 
@@ -532,24 +545,26 @@ Proof.
   induction 1 as [|e r He Hr [IH1 IH2]]; simpl; auto. destruct e; simpl in *; try contradiction. auto.
 Qed.
 
-Lemma unc_core : forall fs d e, hard_unc e = true -> forallb no_join fs = true ->
+Lemma forallb_true : forall (fs : list frame), forallb (fun _ => true) fs = true.
+Proof. induction fs; simpl; auto. Qed.
+
+Lemma unc_core : forall fs d e, hard_unc e = true ->
   unc_sig (gerr_base e) (fst (unwind d fs (SPanic (PVErr e)))) /\
   Forall nonjs_ev (snd (unwind d fs (SPanic (PVErr e)))).
 Proof.
-  intros fs d e He Hf.
-  apply (unwind_lift no_join (unc_sig (gerr_base e)) nonjs_ev); auto.
+  intros fs d e He.
+  apply (unwind_lift (fun _ => true) (unc_sig (gerr_base e)) nonjs_ev); auto using forallb_true.
   - intros; apply step_unc; auto.
   - exists e; auto.
 Qed.
 
 Lemma uncatchable_invisible : forall fs d e,
   hard_unc e = true ->
-  forallb no_join fs = true ->
   let '(s, ev) := unwind d fs (SPanic (PVErr e)) in
   js_events ev = [] /\
   exists e', s = SPanic (PVErr e') /\ hard_unc e' = true /\ gerr_base e' = gerr_base e.
 Proof.
-  intros fs d e He Hf. destruct (unc_core fs d e He Hf) as [H1 H2].
+  intros fs d e He. destruct (unc_core fs d e He) as [H1 H2].
   destruct (unwind d fs (SPanic (PVErr e))) as [s ev]; simpl in *.
   split; [apply nonjs_js_events; auto | exact H1].
 Qed.
@@ -572,33 +587,24 @@ Lemma uncatchable_invisible_case : forall c e,
   init_signal (length (c_pre c) + match c_post c with Some post => length post | None => 0 end) (c_thrower c)
     = SPanic (PVErr e) ->
   hard_unc e = true ->
-  forallb no_join (c_pre c) = true ->
-  match c_post c with Some post => forallb no_join post = true | None => True end ->
   js_events (fst (propagate c)) =
     match c_post c with None => [] | Some _ => js_events (snd (unwind 0 (c_pre c) SNormal)) end /\
   catch_obs (fst (propagate c)) = [].
 Proof.
-  intros [entry pre post th] e Hs He Hpre Hpost. simpl in *. unfold propagate; simpl.
+  intros [entry pre post th] e Hs He. simpl in *. unfold propagate; simpl.
   destruct post as [post|].
   - destruct (unwind_normal pre 0) as [N1 N2].
     destruct (unwind 0 pre SNormal) as [s1 ev1]; simpl in *; subst s1.
     destruct (runs_jobs entry); simpl.
-    + rewrite Hs. destruct (unc_core post (length pre) e He Hpost) as [[e' [E1 [E2 E3]]] U2].
+    + rewrite Hs. destruct (unc_core post (length pre) e He) as [[e' [E1 [E2 E3]]] U2].
       destruct (unwind (length pre) post (SPanic (PVErr e))) as [s2 ev2]; simpl in *. subst s2. simpl.
       destruct (nonjs_js_events _ U2) as [J1 J2].
       rewrite js_events_app, catch_obs_app, J1, J2, (only_fin_catch _ N2), !app_nil_r. auto.
     + rewrite (only_fin_catch _ N2). auto.
   - rewrite Nat.add_0_r in Hs. rewrite Hs.
-    destruct (unc_core pre 0 e He Hpre) as [_ U2].
+    destruct (unc_core pre 0 e He) as [_ U2].
     destruct (unwind 0 pre (SPanic (PVErr e))) as [s ev]; simpl in *.
     destruct (nonjs_js_events _ U2); auto.
-Qed.
-
-Lemma uncatchable_join_refuted : exists fs,
-  catch_obs (snd (unwind 0 fs (SPanic (PVErr (GErr [] BSO))))) <> [].
-Proof.
-  exists [FJS (mkJS (Some CSwallow) false); FNat (mkNat EnReflErr CbCallable (HReturnJoin 2%N)); FJS (mkJS None true)].
-  vm_compute. discriminate.
 Qed.
 
 (* ------------------------------------------------------------------------------------------------ *)
